@@ -162,5 +162,41 @@ def _impl(tier, seed, search):
     res = L.result(); res['exhaustive'] = True
     return res
 
+def correspondence(tier, seed):
+    from .common import model_correspondence
+    return model_correspondence('smv.props.c09', tier, seed)
+
+def _corr(tier, seed):
+    """which element pairs `binop` / `_op2` combine for operands of n and m values (n, m in 1..7), on the real classes,
+    vs Logic.Broadcast.binop on index lists"""
+    from spatialmath import SE3, SO2, Twist3, UnitQuaternion, Quaternion
+    rows = []
+    mx = 6 if tier == 'quick' else 9
+    def tagged(cname, n, off):
+        if cname == 'SE3': X = SE3([SE3(float(off + i), 0, 0) for i in range(n)]) if n > 1 else SE3(float(off), 0, 0)
+        elif cname == 'SO2': X = SO2([SO2(0.01 * (off + i)) for i in range(n)]) if n > 1 else SO2(0.01 * off)
+        elif cname == 'Twist3': X = Twist3([Twist3([float(off + i), 0, 0, 0, 0, 0]) for i in range(n)]) if n > 1 else Twist3([float(off), 0, 0, 0, 0, 0])
+        elif cname == 'Quaternion': X = Quaternion([Quaternion([float(off + i), 0, 0, 0]) for i in range(n)]) if n > 1 else Quaternion([float(off), 0, 0, 0])
+        return X
+    ident = dict(SE3=lambda a: int(round(a[0, 3])), SO2=lambda a: int(round(math.atan2(a[1, 0], a[0, 0]) / 0.01)),
+                 Twist3=lambda a: int(round(a[0])), Quaternion=lambda a: int(round(a[0])))
+    for cname in ('SE3', 'SO2', 'Twist3', 'Quaternion'):
+        idf = ident[cname]
+        for n in range(1, mx + 1):
+            for m in range(1, mx + 1):
+                for meth in (('binop', '_op2') if cname in ('SE3', 'SO2') else ('binop',)):
+                    X = tagged(cname, n, 0); Y = tagged(cname, m, 100)
+                    op = lambda x, y: f'{idf(np.asarray(x, float))}-{idf(np.asarray(y, float)) - 100}'
+                    try:
+                        r = getattr(X, meth)(Y, op)
+                        if isinstance(r, str): r = [r]
+                        exp = ','.join(r) if len(r) else '-'
+                    except ValueError:
+                        exp = 'ValueError'
+                    except Exception as e:
+                        exp = 'exc:' + type(e).__name__
+                    rows.append(dict(req=f'logic bcast {n} {m}', exp=exp, meta=dict(cls=cname, method=meth)))
+    return rows
+
 if __name__ == '__main__':
-    main_entry(_impl)
+    main_entry(_impl, _corr)
